@@ -6,8 +6,9 @@ property states (a module's top level runs once, its imports first).  TLC checks
 AllReached and termination, and emits every final state: the graph, the reachable modules, the
 modules on cycles and the order of the `init` lines.  Each graph (up to renaming of unreachable
 parts) is written as a project -- every module imports its list, defines typed public bindings,
-ascribes `dep.x: Int` for every import inside a public function, has one unused private variable
-and prints `init <m>` -- and given to the real `erg check` and `erg run`: both must terminate
+ascribes `dep.x: Int` (variant "var") or `dep.k(): Int` (variant "fn": function names are what the
+builder pre-registers across cycles) for every import inside a public function, has one unused
+private variable and prints `init <m>` -- and given to the real `erg check` and `erg run`: both must terminate
 without a crash; the project must be accepted (every imported name visible with its declared
 type); each reachable module's unused-variable warning must appear exactly once (analysed once);
 `init <m>` must be printed exactly once per reachable module and, for acyclic graphs, in the
@@ -19,7 +20,11 @@ LEVEL = "model_checking"
 ANSI = re.compile(r"\x1b\[[0-9;]*m")
 
 
-def write_project(d, imp):
+def write_project(d, imp, variant="var", oncycle=()):
+    """variant "var": importers read the public VARIABLE of every module they import (inside a function);
+    variant "fn": importers call a public FUNCTION of every module they import (subroutine names are what the
+    builder pre-registers for modules on a cycle), and read the variable of imports that are on no cycle at
+    top level"""
     n = len(imp)
     for m in range(1, n + 1):
         L = []
@@ -27,7 +32,14 @@ def write_project(d, imp):
             L.append(f'd{dep} = import "m{dep}"')
         L.append(f".x{m}: Int = {100 + m}")
         L.append(f'.s{m} = "m{m}"')
-        body = [f"    a{dep}: Int = d{dep}.x{dep}" for dep in imp[m - 1]]
+        L.append(f".k{m}() = {100 + m}")
+        if variant == "fn":
+            for dep in imp[m - 1]:
+                if dep not in oncycle and dep != m:
+                    L.append(f".y{m}_{dep}: Int = d{dep}.x{dep} + 1")
+            body = [f"    a{dep}: Int = d{dep}.k{dep}()" for dep in imp[m - 1]]
+        else:
+            body = [f"    a{dep}: Int = d{dep}.x{dep}" for dep in imp[m - 1]]
         L.append(f".f{m}() =\n" + "\n".join(body + [f"    {100 + m}"]))
         L.append(f"w{m} = {m}")
         L.append(f'print! "init {m}"')
@@ -53,10 +65,10 @@ def shape_of(rec):
     return "+".join(kinds) or "tree"
 
 
-def run_project(erg, base, idx, rec, env, timeout=120):
-    d = os.path.join(base, f"p{idx}")
+def run_project(erg, base, idx, rec, env, timeout=120, variant="var"):
+    d = os.path.join(base, f"p{idx}{variant}")
     os.makedirs(d, exist_ok=True)
-    write_project(d, rec["imp"])
+    write_project(d, rec["imp"], variant, rec.get("oncycle") or ())
     res = {}
     for mode in ("check", "run"):
         try:
@@ -87,6 +99,17 @@ def run(ctx):
     ctx.tlc_stats(rd, "ImportGraph.tla (simulation: acyclic projects of 7 modules, diamonds and chains)")
     if not rd.ok:
         raise ToolError("ImportGraph.tla dag simulation: " + str(rd.invariant_violated))
+    # layer B: the package builder itself (resolution, inlining of cycles, analysis threads, promises) per import shape,
+    # every interleaving: AnalysedOnce / Terminates / Visible.  Visible is refuted for cycles (the known finding, at design level)
+    def bp(shape):
+        return shape, tlc(f"graph/MC_BP_{shape}.tla", cfg=f"MC_BP_{shape}.cfg", workers=2, coverage=False, deadlock=True, tag="c20b" + shape)
+    with ThreadPoolExecutor(max_workers=5) as ex:
+        layer_b = dict(ex.map(bp, ["chain", "diamond", "self", "cyc2", "cyc3"]))
+    for shape, rb in layer_b.items():
+        ctx.tlc_stats(rb, f"BuildPackage.tla ({shape}): " + ("holds" if rb.ok else f"{rb.invariant_violated} refuted"))
+    if not all(layer_b[k].ok for k in ("chain", "diamond", "self")):
+        raise ToolError("BuildPackage.tla: an acyclic shape violates its properties (specification drift)")
+    ctx.set("layer_B_visible_refuted_on_cycles", [k for k in ("cyc2", "cyc3") if layer_b[k].invariant_violated == "Visible"])
     seen, recs = set(), []
     for rec in r.tagged("P") + rs.tagged("P") + rd.tagged("P"):
         k = reach_key(rec)
@@ -109,19 +132,20 @@ def run(ctx):
         recs = picked + rest[: cap - len(picked)]
     env = erg_env()
     base = scratch("c20")
+    jobs = [(i, rec, v) for i, rec in enumerate(recs) for v in ("var", "fn")]
     with ThreadPoolExecutor(max_workers=12) as ex:
-        results = list(ex.map(lambda t: run_project(erg, base, t[0], t[1], env), enumerate(recs)))
+        results = list(ex.map(lambda t: run_project(erg, base, t[0], t[1], env, variant=t[2]), jobs))
     # hangs on a loaded machine are confirmed alone
-    for i, res in enumerate(results):
+    for j, res in enumerate(results):
         if any(res[m]["rc"] is None for m in res):
-            results[i] = run_project(erg, base, i, recs[i], env, timeout=300)
+            results[j] = run_project(erg, base, jobs[j][0], jobs[j][1], env, timeout=300, variant=jobs[j][2])
     shapes = {}
     judged = 0
-    for rec, res in zip(recs, results):
-        sh = shape_of(rec)
+    for (i_, rec, variant), res in zip(jobs, results):
+        sh = shape_of(rec) + ("" if variant == "var" else "/functions")
         shapes[sh] = shapes.get(sh, 0) + 1
         reach = rec["reachable"]
-        proj = {"imp": rec["imp"], "reachable": reach}
+        proj = {"imp": rec["imp"], "reachable": reach, "variant": variant, "oncycle": rec.get("oncycle")}
         judged += 1
         bad = False
         for mode in ("check", "run"):
@@ -182,6 +206,7 @@ def replay(path):
     _, erg = build_core()
     stage_erg_path()
     base = scratch("c20_replay")
-    res = run_project(erg, base, 0, {"imp": d["project"]["imp"]}, erg_env(), timeout=300)
+    res = run_project(erg, base, 0, {"imp": d["project"]["imp"], "oncycle": d["project"].get("oncycle")}, erg_env(), timeout=300,
+                      variant=d["project"].get("variant", "var"))
     print(json.dumps(res, indent=1)[:3000])
     return 0
